@@ -9,6 +9,7 @@ for _p in ('C01', 'C02', 'C03', 'C04', 'C09', 'C10', 'C13', 'C14', 'C16', 'C18',
     CONSTS.setdefault(_p, []).append('ConstantsCodec')
 for _p in ('C06', 'C12', 'C15'):
     CONSTS.setdefault(_p, []).append('ConstantsAgent')           # client defaults
+CONSTS.setdefault('C02', []).append('ConstantsMethods')         # IANA method numbers
 CONSTS.setdefault('C08', []).append('ConstantsAgentNonce')       # nonce-cookie header and feature bits
 CONSTS.setdefault('C15', []).append('ConstantsAgentRtt')         # ALPHA, BETA, K, staleness limit
 # functions translated from /repo's current Rust text (tools/rs2v.py -> coq/Generated/Code.v) and the lemmas proving that
